@@ -4,6 +4,9 @@
   property setter (Config.root_path, Config.bind, ...) would execute untraced with a symbolic
   argument and crash ("Numeric operation on symbolic while not tracing").  Property setters
   are dispatched with tracing on instead.
+* `x in {204, 304}`: the literal is compiled to a frozenset constant; CrossHair's containment
+  interceptor handles set/dict/str/range but not frozenset, so the symbolic `x` would be hashed,
+  i.e. realised value by value (the path tree never exhausts).  frozenset is treated like set.
 """
 from __future__ import annotations
 
@@ -37,3 +40,21 @@ def apply() -> None:
         return fset(obj, value)
 
     core._PATCH_REGISTRATIONS[setattr] = _setattr
+
+    from crosshair import opcode_intercept as oi
+    from crosshair.libimpl.builtinslib import LinearSet, ShellMutableSet
+
+    orig = oi.ContainmentInterceptor.trace_op
+    if not getattr(orig, "__vf__", False):
+
+        def trace_op(self, frame, codeobj, codenum):
+            item = oi.frame_stack_read(frame, -2)
+            if isinstance(item, oi.CrossHairValue):
+                container = oi.frame_stack_read(frame, -1)
+                if type(container) is frozenset:
+                    oi.frame_stack_write(frame, -1, ShellMutableSet(LinearSet(set(container))))
+                    return
+            return orig(self, frame, codeobj, codenum)
+
+        trace_op.__vf__ = True
+        oi.ContainmentInterceptor.trace_op = trace_op
